@@ -7,6 +7,21 @@ ALL = ["C%02d" % i for i in range(1, 21)]
 
 # property id -> (level category, level text, level note, technique, design ref)
 CHECKS = {
+ "C03": ("exploration",
+         "Bounded-exhaustive runtime comparison: every token string up to length 3 (thorough 4) over the 20 mask/regex-metacharacter tokens, also in ||-prefixed, /*-suffixed and pipe-wrapped forms, is compiled by the rule itself (hook VerifPrepared) and compared with a hand-written token matcher on every string up to length 4 (thorough 5) over a per-pattern reduced alphabet under up to 12 scheme/subdomain prefixes, plus walked witnesses and near misses that also go through NetworkRule.Match (quick: 8e7 comparisons, thorough: 6e9). The statement asks for language equivalence per pattern; executions can only give this bounded enumeration, and the evidence says so.",
+         "Reference matcher is hand-written from the documented mask syntax and the library's documented constants for START_URL and the separator class; space is excluded from strings; disagreements that need a string longer than the bound and outside the witness set are missed; patterns the rule text cannot express (e.g. ending in a backslash before '$') are counted inconclusive.",
+         "runtime differential oracle (reference token matcher vs. the rule's own compiled regexp) over bounded-exhaustive patterns x strings",
+         "DESIGN.md section 4, C03"),
+ "C04": ("exploration",
+         "Randomised differential execution: rules rendered from structured specs (any subset of the modifier kinds, shuffled values, negations, quoted/escaped clients, CIDR) against requests aimed at the boundaries of exactly those conditions; NetworkRule.Match is compared with a reference evaluator that works on the spec and derives request facts with net/url and publicsuffix (quick 5e6, thorough 2e8 rule/request pairs).",
+         "Reference evaluator and the C03 mask matcher are the trusted base; lower-case hosts and domain values; IPv4-mapped/zoned clients and private-suffix hosts under name.* are don't-care; only mask patterns.",
+         "runtime differential oracle (reference evaluator on structured specs) with boundary-targeted request generation",
+         "DESIGN.md section 4, C04"),
+ "C05": ("exploration",
+         "Runtime witness search: for grammar-generated regex rules, every regex rule of the bundled lists and mask patterns, strings are synthesised by biased walks over the regexp/syntax tree (other alternation branch, zero repetitions, class boundaries, case flips), filtered by the rule's own compiled regexp, and each accepted string must contain the shortcut and (for modifier-free rules) Match.",
+         "Acceptance is sampled, emptiness of L(r) minus 'contains shortcut' is not decided; trusts regexp/syntax for parsing the expression the same way regexp.Compile does.",
+         "runtime invariant check (accepted => contains shortcut) over synthesised witnesses filtered by the real compiled matcher",
+         "DESIGN.md section 4, C05"),
  "C09": ("exploration",
          "Bounded-exhaustive execution: every sequence of length 0..4 over a 16-symbol alphabet of rewrite shapes (quick; thorough adds lengths 5..6) plus PRNG-sampled sequences up to length 12 over all 78 shape variants, each run through DNSResult.DNSRewrites and (sampled) through a DNS engine, judged by an order-independent reference filter written from the statement. Order dependence and value-equality defects need several exceptions in particular positions, which enumeration of short sequences reaches completely.",
          "Trusts the rule parser for the 19 value shapes used (C10 checks shapes); sequences longer than the bound are sampled only; keyword NOERROR as an exception value is a declared don't-care.",
